@@ -458,6 +458,57 @@ func c18(x *mon.Ctx) {
 			}
 			x.Note("default-opts-nonce-bitflip", c.Param, s != nil, false, s == nil && e != nil)
 		}
+		// the caller's nonce buffer is the caller's: a server that re-uses one challenge buffer for the next session after it
+		// built the options for this one still has THIS session's nonce bound (nonces of 1, 32, 63 and 64 bytes)
+		for _, n := range []int{1, 32, 63, 64} {
+			buf := make([]byte, n)
+			copy(buf, sq.ReportData)
+			okQuote := bytes.Equal(append(append([]byte{}, buf...), make([]byte, 64-n)...), sq.ReportData)
+			o := rtmr.TdxDefaultOpts(buf)
+			for i := range buf { // next session's challenge
+				buf[i] ^= 0x5a
+			}
+			c := base.Case(world.LBase, "default-opts-nonce-buffer-reused", fmt.Sprint("len", n))
+			vo, _ := mon.Options(c)
+			o.Verification = vo
+			m := mon.MessageFor("built", c.Quote)
+			var st any
+			var e error
+			pv, stk := mon.Guard(func() {
+				s1, e1 := rtmr.ParseCcelWithTdQuote(ccelData, ccelTable, m, &o)
+				e = e1
+				if s1 != nil {
+					st = s1
+				}
+			})
+			prob := ""
+			switch {
+			case pv != "":
+				prob = "panic: " + pv + "\n" + stk
+			case okQuote && st == nil:
+				prob = fmt.Sprintf("the options were built for the nonce the quote carries; after the caller re-used its nonce buffer for another challenge the quote is refused (%v): the policy follows the caller's buffer", e)
+			case !okQuote && st != nil:
+				prob = "a state is returned although REPORT_DATA is not the nonce the options were built for"
+			}
+			if prob != "" {
+				x.Violation("default-opts-nonce-buffer-reused", c.Param, prob, "none", c.Param)
+			}
+			x.Note("default-opts-nonce-buffer-reused", c.Param, st != nil, pv != "", prob == "")
+			// and the other session's quote (REPORT_DATA = the buffer's new content) is not accepted under these options
+			if n == 64 {
+				w2 := base.Clone()
+				copy(w2.Q.Body[520:584], buf)
+				w2.Requote()
+				c2 := w2.Case(world.LBase, "default-opts-nonce-buffer-reused", "len64/other-sessions-quote")
+				vo2, _ := mon.Options(c2)
+				o.Verification = vo2
+				s2, e2 := rtmr.ParseCcelWithTdQuote(ccelData, ccelTable, mon.MessageFor("built", c2.Quote), &o)
+				if s2 != nil || e2 == nil {
+					x.Violation("default-opts-nonce-buffer-reused", c2.Param, "a quote carrying the NEXT session's nonce is accepted under the options built for this session's nonce (the policy follows the caller's buffer)", "none", c2.Param)
+				}
+				x.Note("default-opts-nonce-buffer-reused", c2.Param, s2 != nil, false, s2 == nil)
+			}
+		}
 		// nonces shorter than REPORT_DATA: the default policy binds REPORT_DATA to the nonce followed by zeros, so an honest quote
 		// carrying exactly that is accepted and any other nonce of the same length is refused
 		for _, n := range []int{1, 16, 20, 32, 48, 63, 64} {
